@@ -639,7 +639,8 @@ def gen_tiny_branch(rng, nmax=9):
             a1 = len(players); players.append(PR); rewards.append(F(rng.randint(100, 2000))); tl.append([(F(1), f)])
             a2 = len(players); players.append(PR); rewards.append(F(rng.randint(1, 50))); tl.append([(F(1), f)])
             pa, pb = rng.choice([(F(2, 10 ** 13), F(6, 10 ** 13)), (F(1, 10 ** 12), F(3, 10 ** 12)), (F(1, 10 ** 10), F(1, 10 ** 11)),
-                                 (F(1, 10 ** 18), F(3, 10 ** 18)), (F(1, 10 ** 30), F(1, 10 ** 18))])     # last two: the dead mass is 1.0 as a double
+                                 (F(1, 10 ** 18), F(3, 10 ** 18)), (F(1, 10 ** 30), F(1, 10 ** 18)),     # these two: the dead mass is 1.0 as a double
+                                 (F(1, 10 ** 310), F(3, 10 ** 310)), (F(1, 10 ** 320), F(1, 10 ** 310)), (F(1, 10 ** 300), F(2, 10 ** 308))])   # subnormal survivors
             t = len(players)
             tr = [(pa, a1), (pb, a2), (1 - pa - pb, z)]
             rng.shuffle(tr)
@@ -1113,6 +1114,259 @@ def gen_no_reach(rng):
     return {"rewards": rewards, "players": players, "transition_list": tl, "final_states": finals}
 
 
+GAPS = [F(0), F(1, 10 ** 9), F(1, 10 ** 8), F(1, 10 ** 7), F(3, 10 ** 7), F(4, 10 ** 7), F(6, 10 ** 7), F(9, 10 ** 7), F(12, 10 ** 7),
+        F(2, 10 ** 6), F(3, 10 ** 6), F(5, 10 ** 6), F(8, 10 ** 6), F(15, 10 ** 6), F(1, 10 ** 4)]
+GAP_BASES = [F(1, 2), F(1, 3), F(7, 10), F(1), F(5000004, 10 ** 7), F(123456, 10 ** 6), F(9, 10), F(1, 4)]
+
+
+def gen_gap(rng):
+    """A Player-1 or Player-2 chooser whose options have reachability values base - gap_i with gaps spread over the decades around
+    the solver's resolution (0, 1e-9 .. 1e-4; 6 digits, threshold 1e-6), in any listing order, each option carrying its own reward.
+    The values are exact after one or two sweeps, so what is reported for the chooser is exactly the max / min of its successors:
+    a comparison that rounds, or takes the first of several rounded-equal successors, shows as an excess over the true value; gaps
+    above the tolerance must be separated in the strategies."""
+    base = rng.choice(GAP_BASES)
+    k = rng.randint(2, 4)
+    gaps = [rng.choice(GAPS) for _ in range(k)]
+    if rng.random() < 0.7:
+        gaps[rng.randrange(k)] = F(0)
+    players, tl, rewards = [None], [None], [F(rng.randint(0, 3))]
+    final, sink = 1, 2
+    players += [PR, PR]; tl += [[(F(1), 1)], [(F(1), 2)]]; rewards += [F(0), F(0)]
+    opts = []
+    for i, gp in enumerate(gaps):
+        q = base - gp
+        if q <= 0:
+            q = base
+        s = len(players)
+        if q == 1:
+            owner = rng.choice([PR, P1, P2])
+            players.append(owner); tl.append([(F(1), final)] if owner == PR else [("go", final)])
+        else:
+            tr = [(q, final), (1 - q, sink)]
+            if rng.random() < 0.5:
+                tr.reverse()
+            players.append(PR); tl.append(tr)
+        rewards.append(F(rng.choice([0, 1, 2, 5, 9, 40])))
+        if rng.random() < 0.25:
+            # one more forced hop in front of the option
+            h = len(players)
+            owner = rng.choice([PR, P1, P2])
+            players.append(owner); tl.append([(F(1), s)] if owner == PR else [("go", s)]); rewards.append(F(rng.randint(0, 3)))
+            s = h
+        opts.append((LABELS[i], s))
+    rng.shuffle(opts)
+    chooser = rng.choice([P1, P2, P2])
+    r = rng.random()
+    if r < 0.6:
+        players[0], tl[0] = chooser, opts
+    else:
+        c = len(players)
+        players.append(chooser); tl.append(opts); rewards.append(F(rng.randint(0, 3)))
+        if r < 0.8:
+            players[0], tl[0] = PR, [(F(1, 2), c), (F(1, 2), rng.choice([final, sink, c]))]
+        else:
+            other = rng.choice([P1, P2])
+            players[0], tl[0] = other, [("x", c), ("y", rng.choice([final, sink]))]
+    gd = {"rewards": rewards, "players": players, "transition_list": tl, "final_states": [final]}
+    return renumber_random(rng, gd) if rng.random() < 0.7 else gd
+
+
+def gen_gap_loop(rng):
+    """A Player-1 state S with a good action (value q) and an action that returns to S (directly or through one more state) except
+    for a leak eps into a dead sink: its value is (1-eps)*v(S), worse than the good action by eps*q, spread over 1e-8 .. 1e-4.  If
+    the worse action is kept as reachability-optimal, pruning removes the leak and leaves a probability-1 cycle (rewarded or not)."""
+    q = rng.choice([F(1, 2), F(1, 3), F(7, 10), F(1), F(1, 4), F(9, 10)])
+    gap = rng.choice([F(1, 10 ** 8), F(1, 10 ** 7), F(4, 10 ** 7), F(6, 10 ** 7), F(9, 10 ** 7), F(12, 10 ** 7), F(2, 10 ** 6), F(3, 10 ** 6),
+                      F(4, 10 ** 6), F(6, 10 ** 6), F(9, 10 ** 6), F(2, 10 ** 5), F(1, 10 ** 4)])
+    eps = gap / q
+    # 0 S, 1 final, 2 sink, 3 good, 4 back
+    players = [P1, PR, PR]
+    tl = [None, [(F(1), 1)], [(F(1), 2)]]
+    rewards = [F(rng.randint(0, 2)), F(0), F(0)]
+    good = 3
+    if q == 1:
+        players.append(PR); tl.append([(F(1), 1)])
+    else:
+        tr = [(q, 1), (1 - q, 2)]
+        if rng.random() < 0.5:
+            tr.reverse()
+        players.append(PR); tl.append(tr)
+    rewards.append(F(rng.randint(0, 5)))
+    back = 4
+    target = 0
+    if rng.random() < 0.4:
+        # the way back passes through one more forced state
+        target = 5
+    tr = [(1 - eps, target), (eps, 2)]
+    if rng.random() < 0.5:
+        tr.reverse()
+    players.append(PR); tl.append(tr); rewards.append(F(rng.choice([0, 1, 1, 3])))
+    if target == 5:
+        owner = rng.choice([PR, P1, P2])
+        players.append(owner); tl.append([(F(1), 0)] if owner == PR else [("go", 0)]); rewards.append(F(rng.choice([0, 1])))
+    opts = [("a", good), ("b", back)]
+    if rng.random() < 0.3:
+        opts.append(("c", 2))
+    rng.shuffle(opts)
+    tl[0] = opts
+    gd = {"rewards": rewards, "players": players, "transition_list": tl, "final_states": [1]}
+    if rng.random() < 0.4:
+        # the chooser is not the initial state
+        n = len(players)
+        sh = {"rewards": [F(rng.randint(0, 2))] + rewards, "players": [rng.choice([PR, P1, P2])] + players,
+              "transition_list": [None] + [[(a, t + 1) for a, t in x] for x in tl], "final_states": [2]}
+        sh["transition_list"][0] = [(F(1), 1)] if sh["players"][0] == PR else [("in", 1)]
+        gd = sh
+    gd = renumber_random(rng, gd) if rng.random() < 0.6 else gd
+    # the input game's T_max is ~1/eps (1e4 .. 1e8) only because of the returning action, which a correct solve discards after a few
+    # sweeps: budgets derived from T_max would cost minutes per non-terminating case, so this class carries its own sweep cap
+    gd["_sweep_cap"] = 30000
+    return gd
+
+
+def gen_corridor(rng):
+    """A corridor of forced moves (zero rewards) in front of a 'gate' where several quantities change by very different amounts in
+    the same sweep: the play reaches the goal with probability p, is lost with 1-p-q (a dead branch, pruned), and with a tiny
+    probability q passes a bonus room first.  Numbered along the corridor the news travels one state per sweep, so each sweep changes
+    exactly one state: its expected reward by ~q (below the threshold) and - with pruning - its diagnostic probability by ~1-p."""
+    k = rng.randint(2, 8)
+    p = rng.choice([F(1, 2), F(1, 3), F(9, 10), F(1, 10)])
+    q = rng.choice([F(1, 10 ** 7), F(1, 10 ** 8), F(3, 10 ** 7), F(1, 10 ** 9), F(1, 10 ** 6), F(1, 10 ** 3)])
+    variant = rng.choice(["bonus", "bonus", "p2split"])
+    players, tl, rewards = [], [], []
+    gate = k + 1
+    for i in range(k + 1):
+        owner = rng.choice([PR, PR, P1, P2]) if i else rng.choice([P1, PR, P2])
+        players.append(owner); tl.append([(F(1), i + 1)] if owner == PR else [("go", i + 1)])
+        rewards.append(F(rng.choice([0, 0, 0, 5])) if i == 0 else F(0))
+    bonus, good, bad = gate + 1, gate + 2, gate + 3
+    if variant == "bonus":
+        tr = [(p, good), (1 - p - q, bad), (q, bonus)]
+        rng.shuffle(tr)
+        players.append(PR); tl.append(tr); rewards.append(F(0))
+        players.append(PR); tl.append([(F(1), good)]); rewards.append(F(rng.choice([1, 2, 5])))
+    else:
+        # Player 2 at the gate: the reach-minimal action and the reward-minimal action differ
+        players.append(P2); rewards.append(F(0))
+        players.append(PR); rewards.append(F(rng.choice([1, 2, 5])))
+        tl.append([("r", bonus), ("s", good)] if rng.random() < 0.5 else [("s", good), ("r", bonus)])
+        tr = [(p, good), (1 - p, bad)]
+        rng.shuffle(tr)
+        tl.append(tr)
+    players += [PR, PR]; tl += [[(F(1), good)], [(F(1), bad)]]; rewards += [F(0), F(0)]
+    gd = {"rewards": rewards, "players": players, "transition_list": tl, "final_states": [good]}
+    r = rng.random()
+    if r < 0.4:
+        return gd                                   # numbered along the corridor
+    if r < 0.7:
+        n = len(players)
+        return permute(gd, [0] + [n - i for i in range(1, n)])      # against it
+    return renumber_random(rng, gd)
+
+
+def gen_big_rewards(rng):
+    """A chooser between reach-equivalent options whose rewards are LARGE and nearly equal: different by far more than the solver's
+    absolute resolution (1e-6) but by less than 1e-9 relatively (1e12+1 vs 1e12, 50000.00002 vs 50000)."""
+    R, g = rng.choice([(F(10 ** 12), F(1)), (F(10 ** 12), F(100)), (F(50000), F(2, 10 ** 5)), (F(10 ** 9), F(1, 2)), (F(10 ** 15), F(8)),
+                       (F(10 ** 7), F(1, 200)), (F(2 ** 40), F(1, 4))])
+    q = rng.choice([F(1), F(1), F(1, 2)])
+    chooser = rng.choice([P1, P2])
+    players = [chooser, PR, PR]
+    tl = [None, [(F(1), 1)], [(F(1), 2)]]
+    rewards = [F(rng.randint(0, 3)), F(0), F(0)]
+    opts = []
+    k = rng.randint(2, 3)
+    extra = [F(0), g] + [rng.choice([F(0), g, 2 * g])] * (k - 2)
+    rng.shuffle(extra)
+    for i in range(k):
+        s = len(players)
+        players.append(PR); rewards.append(R + extra[i])
+        tr = [(F(1), 1)] if q == 1 else [(q, 1), (1 - q, 2)]
+        if rng.random() < 0.5:
+            tr.reverse()
+        tl.append(tr)
+        opts.append((LABELS[i], s))
+    rng.shuffle(opts)
+    tl[0] = opts
+    gd = {"rewards": rewards, "players": players, "transition_list": tl, "final_states": [1]}
+    if rng.random() < 0.5:
+        sh = {"rewards": [F(rng.randint(0, 2))] + rewards, "players": [rng.choice([PR, P1, P2])] + players,
+              "transition_list": [None] + [[(a, t + 1) for a, t in x] for x in tl], "final_states": [2]}
+        sh["transition_list"][0] = [(F(1), 1)] if sh["players"][0] == PR else [("in", 1)]
+        gd = sh
+    return renumber_random(rng, gd) if rng.random() < 0.5 else gd
+
+
+DIGIT_LABELS = ["x", "1x", "2x", "0x", "x1", "x2", "1", "2", "12", "11x", "x0", "3x", "10", "01", "1x1", ""]
+
+
+def digit_renaming(rng, gd, an=None):
+    """An injective renaming of the action labels into names made of digits and one letter, such that concatenating a state index
+    and a name (in either order) is ambiguous: state 1 + "2x" reads like state 12 + "x".  If the exact values are at hand the
+    renaming is aimed: a NON-optimal action of a Player-1 state i becomes d+"x" (or "x"+d) where state j = i||d (or d||i) has an
+    optimal action that becomes "x"."""
+    labs = all_labels(gd)
+    n = len(gd["players"])
+    ren = {}
+    if an is not None and rng.random() < 0.8:
+        try:
+            v = an.reach["v"]
+        except oracle.OracleInconclusive:
+            v = None
+        cands = []
+        if v is not None:
+            for i in range(n):
+                if gd["players"][i] != P1:
+                    continue
+                tr = gd["transition_list"][i]
+                best = max(v[t] for _, t in tr)
+                bad = [a for a, t in tr if v[t] < best]
+                if not bad:
+                    continue
+                for j in range(n):
+                    if j == i or gd["players"][j] == PR:
+                        continue
+                    si, sj = str(i), str(j)
+                    trj = gd["transition_list"][j]
+                    ext = (max if gd["players"][j] == P1 else min)(v[t] for _, t in trj)
+                    good = [a for a, t in trj if v[t] == ext]
+                    for mode in ("prefix", "suffix"):
+                        if mode == "prefix" and sj.startswith(si) and len(sj) > len(si):
+                            d = sj[len(si):]
+                        elif mode == "suffix" and sj.endswith(si) and len(sj) > len(si):
+                            d = sj[:len(sj) - len(si)]
+                        else:
+                            continue
+                        for a in bad:
+                            for b in good:
+                                if a != b:
+                                    cands.append((a, b, d, mode))
+        if cands:
+            a, b, d, mode = rng.choice(cands)
+            ren[b] = "x"
+            ren[a] = d + "x" if mode == "prefix" else "x" + d
+    pool = [l for l in DIGIT_LABELS if l not in ren.values()]
+    rng.shuffle(pool)
+    for l in labs:
+        if l not in ren:
+            ren[l] = pool.pop() if pool else "y%d" % len(ren)
+    return ren
+
+
+def gen_digit_labels(rng, nmin=11, nmax=16):
+    """A random stopping game with 11-16 states whose action names are digits / digit-letter mixes (legal names)."""
+    for _ in range(50):
+        n = rng.randint(nmin, nmax)
+        gd = gen_layered(rng, n, back=0.0 if rng.random() < 0.6 else rng.choice([0.2, 0.35]), owners=(0.45, 0.3, 0.25), max_out=3)
+        if len(gd["players"]) < nmin or not oracle.is_stopping(to_oracle(gd))[0]:
+            continue
+        from . import analysis
+        an = analysis.Analysis(gd)
+        return rename_actions(gd, digit_renaming(rng, gd, an))
+    return None
+
+
 CLASSES = ["G-ACY", "G-CYC", "G-SLOW", "G-EC", "G-DEAD", "G-TIE", "G-LEX", "G-TINY"]
 
 
@@ -1170,6 +1424,16 @@ def gen_class(rng, cls, **kw):
         return gen_empty_label(rng)
     if cls == "G-NOREACH":
         return gen_no_reach(rng)
+    if cls == "G-GAP":
+        return gen_gap(rng)
+    if cls == "G-GAPLOOP":
+        return gen_gap_loop(rng)
+    if cls == "G-CORR":
+        return gen_corridor(rng)
+    if cls == "G-BIGR":
+        return gen_big_rewards(rng)
+    if cls == "G-DIGIT":
+        return gen_digit_labels(rng)
     if cls == "G-TINYB":
         return gen_tiny_branch(rng, **kw)
     if cls == "G-INIT0F":
